@@ -21,6 +21,8 @@ pub struct Direct {
     pub api: MockApi,
     pub height: u64,
     pub time: u64, // seconds
+    /// sub-second part of the block time in nanoseconds (0 unless a family moves it)
+    pub nanos: u32,
     pub contract: Addr,
     /// the chain-level (wasm module) admin of the contract under test, i.e. who may migrate it; answered
     /// to `WasmQuery::ContractInfo` about the contract's own address. None: the chain knows no admin.
@@ -55,6 +57,7 @@ impl Direct {
             api,
             height: START_HEIGHT,
             time: START_TIME,
+            nanos: 0,
             contract,
             chain_admin: None,
             calls_ok: 0,
@@ -66,7 +69,7 @@ impl Direct {
     pub fn block(&self) -> BlockInfo {
         BlockInfo {
             height: self.height,
-            time: Timestamp::from_seconds(self.time),
+            time: Timestamp::from_seconds(self.time).plus_nanos(self.nanos as u64),
             chain_id: "verif-chain".to_string(),
         }
     }
@@ -82,6 +85,18 @@ impl Direct {
     pub fn advance(&mut self, blocks: u64, secs: u64) {
         self.height = self.height.saturating_add(blocks);
         self.time = self.time.saturating_add(secs);
+    }
+
+    /// block time in nanoseconds
+    pub fn now_ns(&self) -> u64 {
+        self.time.saturating_mul(1_000_000_000).saturating_add(self.nanos as u64)
+    }
+
+    /// move the clock by a sub-second amount (carrying into the seconds)
+    pub fn advance_nanos(&mut self, n: u32) {
+        let total = self.nanos as u64 + n as u64;
+        self.time = self.time.saturating_add(total / 1_000_000_000);
+        self.nanos = (total % 1_000_000_000) as u32;
     }
 
     pub fn info(sender: &Addr, funds: &[Coin]) -> MessageInfo {
